@@ -101,6 +101,18 @@ def agree(case, impl, model):
             return False
         d = F(int(m.group(1)), int(m.group(2)))
         return r[0] == [1] and close(r[1][0], d, abs(d))
+    if head == "detstack":
+        # the implementation answers with one determinant per matrix of the stack, in stack order
+        s1, e1 = parse_a(t[1])
+        m = re.match(r"^list\(l\((.*)\);l\((.*)\)\)$", model)
+        r = fl(impl)
+        if not m or r is None:
+            return False
+        nums = [int(x) for x in m.group(1).split(",")] if m.group(1) else []
+        dens = [int(x) for x in m.group(2).split(",")] if m.group(2) else []
+        if len(r[1]) != len(nums):          # (the library answers with a flat array of the determinants; the property
+            return False                    #  speaks of the values, one per matrix, not of the result's shape)
+        return all(close(v, F(a, b), abs(F(a, b))) for v, a, b in zip(r[1], nums, dens))
     if head == "qr":
         s1, e1 = parse_a(t[1])
         if not impl.startswith("list("):
@@ -253,6 +265,16 @@ def gen(seed, tier):
     for sh in ([2, 2], [3, 3], [2, 3], [4, 1], [1, 4], [2, 2, 2], [3, 4, 4], [2, 3, 3], [1, 1, 1], [2, 3, 3, 3], [2, 1, 2, 2], [5, 2, 2]):
         for _ in range(2):
             out.append(f"norm {arr(sh, [rng.randint(-9, 9) for _ in range(prod(sh))])} n")
+    # det / qr of stacks of every rank: one determinant per matrix in stack order (seeded change C15k:
+    # the stack was split into shape[0] pieces, right only for rank 3)
+    for sh in ([1, 2, 2], [2, 2, 2], [3, 3, 3], [4, 2, 2], [2, 5, 5], [3, 1, 2, 2], [1, 3, 2, 2], [2, 3, 3, 3], [3, 2, 2, 2], [2, 2, 4, 4],
+               [2, 2, 2, 2, 2], [1, 1, 3, 3]):
+        for _ in range(2):
+            out.append(f"detstack {arr(sh, [rng.randint(-5, 5) for _ in range(prod(sh))])}")
+    for sh in ([3, 1, 2, 2], [1, 3, 2, 2], [2, 2, 3, 3]):
+        n = sh[-1]
+        ms = [rand_mat(rng, n, "dominant") for _ in range(prod(sh[:-2]))]
+        out.append(f"qr {arr(sh, [x for m in ms for x in flat(m)])}")
     return out
 
 
